@@ -17,7 +17,8 @@ from pathlib import Path
 from . import tlaval
 from .common import NCPU, SPEC, MachineryError, TLCResult, run_tlc
 
-_CONST_RE = re.compile(r"^\s*(Jobs|HasTimeout|IgnoresTerm|PopenMayFail|Modes)\s*=\s*\{([^}]*)\}", re.M)
+_CONST_RE = re.compile(r"^\s*(Jobs|HasTimeout|IgnoresTerm|PopenMayFail|Modes|Modes2|NeverExits)\s*=\s*\{([^}]*)\}",
+                       re.M)
 
 
 def cfg_constants(cfg: str) -> dict:
@@ -86,20 +87,25 @@ def state_projection(st: dict) -> dict:
     p = {k: _plain(st[k]) for k in ("mode", "flag", "lock", "futures", "spc", "wpc", "proc", "exc", "delivered",
                                    "seen", "hpc", "snap", "hidx", "late", "postret", "early", "sclosed")}
     p["cw"] = {str(k[1]): v for k, v in st["cpc"].items() if k[0] == "w"}
-    p["ch"] = {str(k[1]): v for k, v in st["cpc"].items() if k[0] == "h"}
+    p["ch"] = {}
+    for k, v in st["cpc"].items():
+        if k[0] != "w":
+            p["ch"].setdefault(str(k[0]), {})[str(k[1])] = v
     return p
 
 
 def trace_to_schedule(states: list[dict]) -> tuple[str, list[dict]]:
     """(mode, steps) of a counterexample; steps as printed by ExecSched (without `en`)."""
-    mode = states[0]["mode"]
+    mode = _plain(states[0]["mode"])
     steps = [{"a": _plain(st["act"]), "s": state_projection(st)} for st in states[1:]]
     return mode, steps
 
 
 def labels(steps) -> list[str]:
-    return [f"{s['a']['k']}[{s['a']['j']}].{s['a']['a']}" if s["a"]["j"] != "-" else f"{s['a']['k']}.{s['a']['a']}"
-            for s in steps]
+    def tid(j):
+        return ",".join(j) if isinstance(j, (list, tuple)) else str(j)
+
+    return [f"{s['a']['k']}[{tid(s['a']['j'])}].{s['a']['a']}" for s in steps]
 
 
 # ---------------------------------------------------------------------------------------------
